@@ -38,6 +38,9 @@ func cmdCheck(prop, tier string, keep bool) int {
 		switch r.Status {
 		case "finding-confirmed":
 			base := strings.Replace(r.Name, "/finding:", "/ensures:", 1)
+			if _, ok := p.findings[base]; !ok {
+				base = strings.Replace(r.Name, "/finding:", "/relational:", 1)
+			}
 			if kf, ok := p.findings[base]; ok {
 				fmt.Printf("KNOWN-FINDING: property=%s %s [obligation %s fails inside region: %s]\n", prop, kf.What, base, kf.Region)
 				known = append(known, base)
